@@ -25,7 +25,7 @@ func init() {
 			for _, sc := range c12Scenarios(tier, false) {
 				out = append(out, sc)
 			}
-			for _, sc := range c11Scenarios(tier) {
+			for _, sc := range c11ScenariosFor(tier, []string{"mem", "dir", "memdir"}) {
 				sc.Linearizable = false
 				sc.Extra = nil
 				out = append(out, sc)
